@@ -78,7 +78,8 @@ def gen_string(r):
     if c < 0.1:
         return ""
     if c < 0.16:
-        return r.choice(["°C", "µs", "Ω", "mm²", "m/s²", "温度", "é", "kΩ·m", "‰", "naïve ünits"])
+        return r.choice(["°C", "µs", "Ω", "mm²", "m/s²", "温度", "é", "kΩ·m", "‰", "naïve ünits",
+                         "\u2126", "\u212b", "\u212a", "e\u0301", "n\u0303o", "\ufb01"])  # the last six are not NFC-normalised
     if c < 0.32:
         parts = []
         for _ in range(r.randint(1, 4)):
@@ -128,6 +129,14 @@ def gen_struct(r, name, types, nfields=(1, 6)):
     fields = []
     names = set()
     ids = r.sample(range(0, 64), r.randint(*nfields))
+    if r.random() < 0.15:
+        # field ids are not small by nature: 16-bit and 32-bit boundaries, ids that agree in their low 16 bits
+        big = r.sample([255, 256, 65535, 65536, 65537, 70000, 131072 + ids[0], (1 << 31) - 1, (1 << 32) - 1], min(len(ids), r.randint(1, 3)))
+        for j, b in enumerate(big):
+            if b not in ids:
+                ids[r.randrange(len(ids))] = b
+        if len(set(ids)) != len(ids):
+            ids = list(dict.fromkeys(ids)) or [0]
     for fid in ids:
         fn = ident(r, avoid=names)
         names.add(fn)
